@@ -44,11 +44,20 @@ def run(ctx):
         correspond_traces(ctx, impl)
     # (c) direct oracle
     oracle.run_all(ctx)
-    if not ok and len(ctx.failures) == before:
-        ctx.fail("proof-broken", "theorem closure props/C14.vo no longer builds against the regenerated gen/ConvergeGen.v:\n"
-                 + tail(log), replay=dict(log=tail(log, 6000)), has_input=False)
-    elif not ok:
-        ctx.note("proof broken AND a failing input / disagreement was found (reported above)")
+    if not ok:
+        # a failing input explains a broken proof only if it is a NEW one: the finding already present on the
+        # unchanged tree (and anything listed as known) must not mask a broken proof / tie
+        known = common.load_known()
+        fresh = [f for f in ctx.failures[before:] if f["has_input"] and f["sig"] not in FINDINGS_ON_PINNED_TREE
+                 and known.get((ctx.pid, f["sig"]), {}).get("status") != "known"]
+        if not fresh:
+            ctx.fail("proof-broken", "theorem closure props/C14.vo no longer builds against the regenerated gen/ConvergeGen.v:\n"
+                     + tail(log), replay=dict(log=tail(log, 6000)), has_input=False)
+        else:
+            ctx.note("proof broken AND a new failing input was found (reported above)")
+
+
+FINDINGS_ON_PINNED_TREE = {"oracle/redundant-attempt-displaces-established/peer-restarted"}
 
 
 # ------------------------------------------------------------------------------------------------
